@@ -2,6 +2,7 @@
 from __future__ import annotations
 
 from vf import conf as C
+from vf import gen
 from vf import workload as W
 from vf.selftests import selftest
 from vf.util import minimize_text, shape
@@ -21,7 +22,8 @@ ASSUMPTIONS = ["linkify-generated pairs come from a stub linkifier (linkify-it-p
 def floors(tier):
     q = tier == "quick"
     return {"streams": 100000 if q else 2000000, "pairs.inline": 20000, "pairs.block": 50000, "image_children_streams": 2000,
-            "pairs.linkify": 100, "trees_built": 100000 if q else 2000000, "api.parseInline": 5000, "strike_lone_marker_docs": 20, "wl.path_families": 50, "wl.limits": 300}
+            "pairs.linkify": 100, "trees_built": 100000 if q else 2000000, "api.parseInline": 5000, "strike_lone_marker_docs": 20, "wl.path_families": 50, "wl.limits": 300,
+            "wl.handwritten_presets": 3000, "wl.delimiter_words": 400000}
 
 
 def check_stream(tokens, layer, ctx=None, path="top", inline_mode=False):
@@ -176,6 +178,24 @@ def run(ctx):
                     continue
                 ctx.count("wl.limits")
                 check_case(ctx, {"api": "parse", "conf": conf, "src": src}, minimize=False)
+    # hand-written preset dicts (explicit rule lists, no 'rules2'): the post-processing chain must still be complete
+    for k in range(ctx.scale(6000, 150000)):
+        conf = {"preset": rng.choice(["commonmark", "js-default", "gfm-like", "default"]), "handwritten": True}
+        if conf["preset"] == "gfm-like":
+            conf["options"] = {"linkify": False}
+        if rng.random() < 0.4:
+            conf["enable"] = rng.sample(["strikethrough", "table", "emphasis", "link"], 2)
+        ctx.count("wl.handwritten_presets")
+        check_case(ctx, {"api": rng.choice(["parse", "parseInline"]), "conf": conf, "src": gen.strip_surrogates(rng.choice([gen.gram(rng, nblocks=2), gen.soup(rng, 4), "*a **b** c* ~~d *e* f~~ [g *h*](u) ![i _j_](s)\n"]))})
+    # every sequence of up to 5 words carrying two kinds of delimiter runs (all crossings, nestings and strays)
+    pairs = gen.DELIM_KIND_PAIRS
+    for pi, kinds in enumerate(pairs):
+        deep = True
+        for di, d in enumerate(gen.delimiter_docs(kinds, 5 if deep else 4)):
+            if not ctx.mine(di + pi):
+                continue
+            ctx.count("wl.delimiter_words")
+            check_case(ctx, {"api": "parseInline", "conf": W.PANEL[2] if "~~" in kinds else W.PANEL[di % 2], "src": d}, minimize=False)
     # dedicated inline nests: images in links in images, emphasis x strikethrough runs, linkify
     confs = [W.PANEL[2], W.PANEL[6], W.PANEL[1], {"preset": "gfm-like", "stub_linkify": True, "options": {"typographer": True}}]
     atoms = ["![", "[", "](u)", "](u \"t\")", "*", "**", "_", "~~", "~~~~~", "~", "~~~", "~~a~~~", "~~~]", "***", "__", "`", "a", " ", "http://x.y/z", "www.ex.com", "a@b.co",
